@@ -6,7 +6,7 @@ package postgres
 // from this file with or without the tag. Syntax: see /verif/DESIGN.md.
 
 //@ func (*PostgresStoreWorker).readPromise
-//@ props C17 C01 C04 C20 C02
+//@ props C16 C17 C01 C04 C20 C02
 //@ nopanic C13
 //@ ghostdb store
 //@ requires cmd != nil
@@ -15,7 +15,7 @@ package postgres
 //@ ensures err != nil ==> result == nil
 
 //@ func (*PostgresStoreWorker).createPromise
-//@ props C17 C01 C03 C20 C02
+//@ props C16 C17 C01 C03 C20 C02
 //@ nopanic C13
 //@ ghostdb store
 //@ stmt stmt PROMISE_INSERT_STATEMENT
@@ -26,7 +26,7 @@ package postgres
 //@ ensures err != nil ==> result == nil
 
 //@ func (*PostgresStoreWorker).createPromiseAndTask
-//@ props C17 C01 C03 C06 C08 C02 C20
+//@ props C16 C17 C01 C03 C06 C08 C02 C20
 //@ nopanic C13
 //@ ghostdb store
 //@ stmt promiseStmt PROMISE_INSERT_STATEMENT
@@ -42,7 +42,7 @@ package postgres
 //@ ensures err != nil ==> result == nil
 
 //@ func (*PostgresStoreWorker).updatePromise
-//@ props C17 C01 C03 C04 C02 C20
+//@ props C16 C17 C01 C03 C04 C02 C20
 //@ nopanic C13
 //@ ghostdb store
 //@ stmt stmt PROMISE_UPDATE_STATEMENT
@@ -54,7 +54,7 @@ package postgres
 //@ ensures err != nil ==> result == nil
 
 //@ func (*PostgresStoreWorker).createCallback
-//@ props C17 C05 C02 C20
+//@ props C16 C17 C05 C02 C20
 //@ nopanic C13
 //@ ghostdb store
 //@ stmt stmt CALLBACK_INSERT_STATEMENT
@@ -65,7 +65,7 @@ package postgres
 //@ ensures err != nil ==> result == nil
 
 //@ func (*PostgresStoreWorker).deleteCallbacks
-//@ props C17 C05 C02 C20
+//@ props C16 C17 C05 C02 C20
 //@ nopanic C13
 //@ ghostdb store
 //@ stmt stmt CALLBACK_DELETE_STATEMENT
@@ -75,7 +75,7 @@ package postgres
 //@ ensures err != nil ==> result == nil
 
 //@ func (*PostgresStoreWorker).readSchedule
-//@ props C17 C10 C02 C20
+//@ props C16 C17 C10 C02 C20
 //@ nopanic C13
 //@ ghostdb store
 //@ requires cmd != nil
@@ -84,7 +84,7 @@ package postgres
 //@ ensures err != nil ==> result == nil
 
 //@ func (*PostgresStoreWorker).createSchedule
-//@ props C17 C10 C02 C20
+//@ props C16 C17 C10 C02 C20
 //@ nopanic C13
 //@ ghostdb store
 //@ stmt stmt SCHEDULE_INSERT_STATEMENT
@@ -95,7 +95,7 @@ package postgres
 //@ ensures err != nil ==> result == nil
 
 //@ func (*PostgresStoreWorker).updateSchedule
-//@ props C17 C10 C02 C20
+//@ props C16 C17 C10 C02 C20
 //@ nopanic C13
 //@ ghostdb store
 //@ stmt stmt SCHEDULE_UPDATE_STATEMENT
@@ -105,7 +105,7 @@ package postgres
 //@ ensures err != nil ==> result == nil
 
 //@ func (*PostgresStoreWorker).deleteSchedule
-//@ props C17 C10 C02 C20
+//@ props C16 C17 C10 C02 C20
 //@ nopanic C13
 //@ ghostdb store
 //@ stmt stmt SCHEDULE_DELETE_STATEMENT
@@ -115,7 +115,7 @@ package postgres
 //@ ensures err != nil ==> result == nil
 
 //@ func (*PostgresStoreWorker).readLock
-//@ props C17 C09 C02 C20
+//@ props C16 C17 C09 C02 C20
 //@ nopanic C13
 //@ ghostdb store
 //@ requires cmd != nil
@@ -124,7 +124,7 @@ package postgres
 //@ ensures err != nil ==> result == nil
 
 //@ func (*PostgresStoreWorker).acquireLock
-//@ props C17 C09 C02 C20
+//@ props C16 C17 C09 C02 C20
 //@ nopanic C13
 //@ ghostdb store
 //@ stmt stmt LOCK_ACQUIRE_STATEMENT
@@ -134,7 +134,7 @@ package postgres
 //@ ensures err != nil ==> result == nil
 
 //@ func (*PostgresStoreWorker).releaseLock
-//@ props C17 C09 C02 C20
+//@ props C16 C17 C09 C02 C20
 //@ nopanic C13
 //@ ghostdb store
 //@ stmt stmt LOCK_RELEASE_STATEMENT
@@ -144,7 +144,7 @@ package postgres
 //@ ensures err != nil ==> result == nil
 
 //@ func (*PostgresStoreWorker).hearbeatLocks
-//@ props C17 C09 C02 C20
+//@ props C16 C17 C09 C02 C20
 //@ nopanic C13
 //@ ghostdb store
 //@ stmt stmt LOCK_HEARTBEAT_STATEMENT
@@ -154,7 +154,7 @@ package postgres
 //@ ensures err != nil ==> result == nil
 
 //@ func (*PostgresStoreWorker).timeoutLocks
-//@ props C17 C09 C02 C20
+//@ props C16 C17 C09 C02 C20
 //@ nopanic C13
 //@ ghostdb store
 //@ stmt stmt LOCK_TIMEOUT_STATEMENT
@@ -164,7 +164,7 @@ package postgres
 //@ ensures err != nil ==> result == nil
 
 //@ func (*PostgresStoreWorker).readTask
-//@ props C17 C07 C02 C20
+//@ props C16 C17 C07 C02 C20
 //@ nopanic C13
 //@ ghostdb store
 //@ requires cmd != nil
@@ -173,7 +173,7 @@ package postgres
 //@ ensures err != nil ==> result == nil
 
 //@ func (*PostgresStoreWorker).createTask
-//@ props C17 C08 C02 C20 C07
+//@ props C16 C17 C08 C02 C20 C07
 //@ nopanic C13
 //@ ghostdb store
 //@ stmt stmt TASK_INSERT_STATEMENT
@@ -186,7 +186,7 @@ package postgres
 //@ ensures err != nil ==> result == nil
 
 //@ func (*PostgresStoreWorker).createTasks
-//@ props C17 C05 C08 C02 C20 C07
+//@ props C16 C17 C05 C08 C02 C20 C07
 //@ nopanic C13
 //@ ghostdb store
 //@ stmt stmt TASK_INSERT_ALL_STATEMENT
@@ -196,7 +196,7 @@ package postgres
 //@ ensures err != nil ==> result == nil
 
 //@ func (*PostgresStoreWorker).completeTasks
-//@ props C17 C05 C08 C02 C20
+//@ props C16 C17 C05 C08 C02 C20
 //@ nopanic C13
 //@ ghostdb store
 //@ stmt stmt TASK_COMPLETE_BY_ROOT_ID_STATEMENT
@@ -206,7 +206,7 @@ package postgres
 //@ ensures err != nil ==> result == nil
 
 //@ func (*PostgresStoreWorker).updateTask
-//@ props C17 C07 C08 C02 C20
+//@ props C16 C17 C07 C08 C02 C20
 //@ nopanic C13
 //@ ghostdb store
 //@ stmt stmt TASK_UPDATE_STATEMENT
@@ -218,7 +218,7 @@ package postgres
 //@ loop 1 invariant rangeindex + 1 <= len(cmd.CurrentStates) && currentStates == maskprefix(cmd.CurrentStates, rangeindex + 1)
 
 //@ func (*PostgresStoreWorker).heartbeatTasks
-//@ props C17 C07 C02 C20
+//@ props C16 C17 C07 C02 C20
 //@ nopanic C13
 //@ ghostdb store
 //@ stmt stmt TASK_HEARTBEAT_STATEMENT
@@ -228,7 +228,7 @@ package postgres
 //@ ensures err != nil ==> result == nil
 
 //@ func (*PostgresStoreWorker).performCommands
-//@ props C06 C17 C02 C01 C03 C04 C05 C07 C08 C09 C10
+//@ props C06 C16 C17 C02 C01 C03 C04 C05 C07 C08 C09 C10
 //@ nopanic C13
 //@ ghostdb store
 //@ opaque
@@ -250,7 +250,7 @@ package postgres
 //@ ensures err == nil ==> len(result0) == len(transactions)
 
 //@ func (*PostgresStoreWorker).Execute
-//@ props C06 C17 C02 C05 C01 C03 C04 C07 C08 C09 C10
+//@ props C06 C16 C17 C02 C05 C01 C03 C04 C07 C08 C09 C10
 //@ nopanic C13
 //@ ghostdb store
 //@ requires w.config != nil && w.db != nil
@@ -259,9 +259,11 @@ package postgres
 //@ ensures err != nil ==> txlog() == "" || txlog() == "begin,perform-err,rolledback" || txlog() == "begin,perform-err,rollback-failed" || txlog() == "begin,perform-ok,commit-failed"
 
 //@ func (*PostgresStoreWorker).readPromises
-//@ props C17 C02 C20 C01 C04
+//@ props C16 C17 C02 C20 C01 C04
 // every returned record is the row it was scanned from, column by column (C01, C20: what a sweep or a search reports is what is stored)
 //@ site loop 1 backedge assert scanned(rows, record, "ReadPromises")
+// what a sweep reads is exactly what its statement selects on: every returned row satisfies the selection (both back ends, same predicate)
+//@ site loop 1 backedge assert [C04 C16 C17] record.State == 1 && record.Timeout <= cmd.Time
 //@ nopanic C13
 //@ ghostdb store
 //@ requires cmd != nil
@@ -269,7 +271,7 @@ package postgres
 //@ ensures err == nil ==> result != nil
 
 //@ func (*PostgresStoreWorker).searchPromises
-//@ props C17 C02 C20 C14 C01 C04
+//@ props C16 C17 C02 C20 C14 C01 C04
 // every returned record is the row it was scanned from, column by column (C01, C20: what a sweep or a search reports is what is stored)
 //@ site loop 2 backedge assert scanned(rows, record, "SearchPromises")
 // result wiring (C14): every scanned row is returned, in scan order; the cursor value is the last row's sort id
@@ -290,9 +292,11 @@ package postgres
 //@ ensures err == nil ==> result != nil
 
 //@ func (*PostgresStoreWorker).readSchedules
-//@ props C17 C02 C20 C10
+//@ props C16 C17 C02 C20 C10
 // every returned record is the row it was scanned from, column by column (C01, C20: what a sweep or a search reports is what is stored)
 //@ site loop 1 backedge assert scanned(rows, record, "ReadSchedules")
+// what a sweep reads is exactly what its statement selects on: every returned row satisfies the selection (both back ends, same predicate)
+//@ site loop 1 backedge assert [C10 C16 C17] record.NextRunTime <= cmd.NextRunTime
 //@ nopanic C13
 //@ ghostdb store
 //@ requires cmd != nil
@@ -300,7 +304,7 @@ package postgres
 //@ ensures err == nil ==> result != nil
 
 //@ func (*PostgresStoreWorker).searchSchedules
-//@ props C17 C02 C20 C14 C10
+//@ props C16 C17 C02 C20 C14 C10
 // every returned record is the row it was scanned from, column by column (C01, C20: what a sweep or a search reports is what is stored)
 //@ site loop 1 backedge assert scanned(rows, record, "SearchSchedules")
 // result wiring (C14): every scanned row is returned, in scan order; the cursor value is the last row's sort id
@@ -317,20 +321,25 @@ package postgres
 //@ ensures err == nil ==> result != nil
 
 //@ func (*PostgresStoreWorker).readTasks
-//@ props C17 C02 C20 C07 C08
+//@ props C16 C17 C02 C20 C07 C08
 // every returned record is the row it was scanned from, column by column (C01, C20: what a sweep or a search reports is what is stored)
 //@ site loop 2 backedge assert scanned(rows, record, "ReadTasks")
+// what a sweep reads is exactly what its statement selects on: every returned row satisfies the selection (both back ends, same predicate)
+//@ site loop 2 backedge assert [C07 C08 C16 C17] (record.State & mask(cmd.States)) != 0 && (record.ExpiresAt <= cmd.Time || record.Timeout <= cmd.Time)
 //@ nopanic C13
 //@ ghostdb store
 //@ requires cmd != nil
 //@ requires len(cmd.States) > 0
+//@ loop 1 invariant rangeindex + 1 <= len(cmd.States) && states == maskprefix(cmd.States, rangeindex + 1)
 //@ ensures err != nil ==> result == nil
 //@ ensures err == nil ==> result != nil
 
 //@ func (*PostgresStoreWorker).readEnqueueableTasks
-//@ props C17 C02 C20 C07 C08
+//@ props C16 C17 C02 C20 C07 C08
 // every returned record is the row it was scanned from, column by column (C01, C20: what a sweep or a search reports is what is stored)
 //@ site loop 1 backedge assert scanned(rows, record, "ReadEnqueueableTasks")
+// what a sweep reads is exactly what its statement selects on: every returned row satisfies the selection (both back ends, same predicate)
+//@ site loop 1 backedge assert [C08 C16 C17] record.State == task.Init
 //@ nopanic C13
 //@ ghostdb store
 //@ requires cmd != nil
@@ -343,3 +352,21 @@ package postgres
 //@ nopanic C13
 //@ requires s != nil && s.config != nil && s.db != nil && s.sq != nil && !closed(s.sq)
 //@ site call Reset assert s.config.Reset
+
+// A flush reaches every worker (C12: a submission waiting in the batch of any worker is released and
+// answered; a worker that is never flushed keeps a partial batch, and its requests, forever).
+//@ func (*PostgresStoreWorker).Flush
+//@ props C12
+//@ nopanic C13
+//@ records flush
+// the flush channel is created by New and never closed
+//@ requires w != nil && !closed(w.flush)
+
+//@ func (*PostgresStore).Flush
+//@ props C12
+//@ nopanic C13
+//@ requires s != nil
+//@ elem ^s\.workers$ assume elem != nil && !closed(elem.flush)
+//@ loop-complete 1
+//@ site loop 1 call Flush assert w == worker
+//@ site loop 1 backedge assert itercalls("flush") == 1
